@@ -176,6 +176,30 @@ func (x *Exec) binop0(op token.Token, t types.Type, av, bv Value) Value {
 		} else if cnt.W < w {
 			cnt = ts.ZExt(cnt, w)
 		}
+		// a constant shifted by a symbolic count that the stated bounds confine to a few values
+		// (1<<hour, 1<<day in bit-mask tests): an if-then-else over those values instead of a
+		// symbolic shift, which is what int-blasting back ends are worst at
+		if a.IsConst() && !cnt.IsConst() && len(x.bounds) > 0 && !x.noFold {
+			if x.ivMemo == nil {
+				x.ivMemo = map[int]ival{}
+			}
+			if rg := x.rangeOf(cnt, x.ivMemo); rg.ok && rg.hi < uint64(w) && rg.hi-rg.lo < 64 {
+				sh := func(k uint64) *Term {
+					switch {
+					case op == token.SHL:
+						return ts.Bin(OpShl, a, ts.BV(k, w))
+					case signed:
+						return ts.Bin(OpAShr, a, ts.BV(k, w))
+					}
+					return ts.Bin(OpLShr, a, ts.BV(k, w))
+				}
+				r := sh(rg.hi)
+				for k := rg.hi; k > rg.lo; k-- {
+					r = ts.Ite(ts.Eq(cnt, ts.BV(k-1, w)), sh(k-1), r)
+				}
+				return r
+			}
+		}
 		var r *Term
 		switch {
 		case op == token.SHL:
